@@ -208,8 +208,13 @@ func VerifH_C08_fund() { verifFund("fund") }
 
 // ---- replenish accounts / pools ------------------------------------------------
 
-func verifReplenish(tag string, pools bool) {
+func verifReplenish(tag string, pools bool) { verifReplenishX(tag, pools, false) }
+
+// verifReplenishX: with interleave, account 0 is debited by another RPC
+// between the host's announcement of the deposits and the renter's signature.
+func verifReplenishX(tag string, pools, interleave bool) {
 	w := newHostWorld(1)
+	var debit types.Currency
 	k := vapi.Int("nAccounts", 1, 2)
 	target := types.NewCurrency64(vapi.UBits("target", 40))
 	var accounts []proto4.Account
@@ -250,6 +255,18 @@ func verifReplenish(tag string, pools bool) {
 		if err := proto4.ReadResponse(bytes.NewReader(c.out.Bytes()), &resp); err != nil {
 			return nil
 		}
+		if interleave {
+			// a paid RPC on account 0 is served right now
+			d := vapi.UBits("interleaved-debit", 40)
+			vapi.Assume(d >= 1 && types.NewCurrency64(d).Cmp(pre[0]) <= 0)
+			debit = types.NewCurrency64(d)
+			pre[0] = pre[0].Sub(debit)
+			if pools {
+				w.contractor.VerifSetPool(accounts[0], pre[0])
+			} else {
+				w.contractor.VerifSetAccount(accounts[0], pre[0])
+			}
+		}
 		sum = types.ZeroCurrency
 		for _, d := range resp.Deposits {
 			sum = sum.Add(d.Amount)
@@ -276,12 +293,17 @@ func verifReplenish(tag string, pools bool) {
 	err := w.server.VerifHandle(rpc, conn)
 	after := w.snap()
 	w.checkCommit(tag)
-	// reference: deposit_i = max(target - balance_i, 0)
+	// reference: deposit_i = max(target - balance_i, 0), with the balances the
+	// host announced its deposits for (before any interleaved debit)
 	var want types.Currency
 	wantDep := make([]types.Currency, k)
 	for i := range accounts {
-		if target.Cmp(pre[i]) > 0 {
-			wantDep[i] = target.Sub(pre[i])
+		announcedFor := pre[i]
+		if i == 0 {
+			announcedFor = announcedFor.Add(debit)
+		}
+		if target.Cmp(announcedFor) > 0 {
+			wantDep[i] = target.Sub(announcedFor)
 		}
 		want = want.Add(wantDep[i])
 	}
@@ -303,6 +325,8 @@ func verifReplenish(tag string, pools bool) {
 	vapi.Assert(tag+".gate", !badChallenge && second == 0 && !w.unrevisable)
 	checkRevision(tag, before.fc, after.fc, want)
 	for i := range accounts {
+		// exactly what the signed revision moved is credited, whatever else
+		// happened to the balance meanwhile
 		vapi.Assert(tag+".topped-up-to-target", bal(accounts[i]) == pre[i].Add(wantDep[i]))
 		vapi.Assert(tag+".never-beyond-target", bal(accounts[i]).Cmp(target) <= 0 || bal(accounts[i]) == pre[i])
 	}
@@ -313,6 +337,9 @@ func VerifH_C08_replenish() { verifReplenish("replenish", false) }
 
 //verif:harness prop=C08,C15 tier=quick replay=native require=replenished,failed,nothing-needed bounds="as VerifH_C08_replenish, pools"
 func VerifH_C15_replenish_pools() { verifReplenish("replenish-pools", true) }
+
+//verif:harness prop=C08,C15 tier=quick replay=native require=replenished,failed bounds="as VerifH_C08_replenish with 1..2 accounts, and a debit of account 0 (symbolic, ≤ its balance) served between the host's announcement and the renter's signature"
+func VerifH_C15_replenish_interleaved() { verifReplenishX("replenish-interleaved", false, true) }
 
 
 var _ = time.Now
